@@ -13,6 +13,12 @@ claimed = {
   text="Decides the structural clause 'no read-only operation can write memory reachable from the shared font, shared lookup lists or an unsynchronised package variable' for every operation in the quantifier (all non-mutating methods of *sfnt.Font, cff.Font.Write, gtab.NewContext, all gtab.Context and sfnt.Layouter methods, builder.ExplainGsub/Gpos) by a flow- and field-sensitive effect analysis with interprocedural summaries. Absence of such writes is the standard sufficient condition for race-freedom of read-only sharing; it is a static over-approximation of all schedules, which no finite set of test interleavings gives. Level 'other': exact decision of a structural clause, not a proof of the behavioural statement.",
   note="Trusted: go/types, go/ssa, VTA call graph soundness for this code base (no reflection/unsafe/cgo in library packages), the hand-written effect table for stdlib/x-text callees (externals.go; unknown callee receiving tracked memory = undecided = fail). Not covered: that each call's *result* equals its sequential result beyond what follows from absence of shared writes; races inside the Go runtime/stdlib.",
   ref="DESIGN.md §3 E6, §4 C16"),
+ "C01": dict(
+  technique="static order-sensitivity analysis (map iteration / clock / schedule) over the type-checked syntax with an SSA purity oracle",
+  engine="mapdet",
+  text="Decides the clause 'writing the same font twice always gives the same bytes, and reading is a function of the bytes': every range over a map, maps.Keys/Values result, clock read, random source, go statement or select reachable from (*Font).Write, WriteTrueTypePDF, WriteOpenTypeCFFPDF and sfnt.Read is shown order-insensitive by a recognised pattern (keyed store injective in the key, commutative reduction, filtered min/max, collect-then-unconditional-sort with a comparator total on the keys, per-cell collection with order-insensitive consumers) with no side-effecting call inside; anything else is a violation naming the loop and the first order-dependent statement. This is a necessary condition of the byte fixed point that holds for every font value, which sampling cannot show (a nondeterministic encoder passes most runs). Level 'other': exact decision of this structural clause only.",
+  note="Trusted: go/types, go/ssa, VTA reachability, the purity oracle (effects engine + external table), reviewed table entries in tables/reviewed.json (7 today, each keyed to one construct and one failure class; the name.Encode entries carry a side condition re-checked on every run). Not covered: losslessness of Read∘Write, precedence rules in Read, numeric precision — value-level, no static argument in reach.",
+  ref="DESIGN.md §3 E5, §4 C01"),
 }
 
 pending_reason = "not claimed yet: the engines this property needs are still being built (DESIGN.md §9 build order); no check is registered until it runs exact on the unchanged tree"
@@ -43,6 +49,7 @@ for pid in props:
 
 engines = [
  {"name": "sharedwrite", "path": "sfntlint/effects.go, sfntlint/c16.go, sfntlint/externals.go", "serves_properties": ["C16"], "kind_free_text": "interprocedural write-effect / ownership analysis on go/ssa (E6)"},
+ {"name": "mapdet", "path": "sfntlint/mapdet.go, sfntlint/props_det.go", "serves_properties": ["C01", "C07", "C08", "C09", "C13", "C15", "C20"], "kind_free_text": "order-sensitivity analysis of map iteration, clock and scheduling sources (E5)"},
 ]
 for e in engines:
     e["serves_properties"] = [p for p in e["serves_properties"] if p in claimed]
